@@ -1024,7 +1024,10 @@ func aGenVal(t *rapid.T, label, typ string) gen.Val {
 // aAvail is an annotation an expression may refer to: its name when the
 // expression is evaluated, the input key it comes from ("" when an edit
 // creates it) and its type.
-type aAvail struct{ Name, Orig, Type string }
+type aAvail struct {
+	Name, Orig, Type string
+	Hot              bool // renamed, or created by --length: reading it tests the order of the edits
+}
 
 func aPick(t *rapid.T, label string, avail []aAvail, types ...string) (aAvail, bool) {
 	var c []aAvail
@@ -1039,7 +1042,28 @@ func aPick(t *rapid.T, label string, avail []aAvail, types ...string) (aAvail, b
 	if len(c) == 0 {
 		return aAvail{}, false
 	}
+	var hot []aAvail
+	for _, a := range c {
+		if a.Hot {
+			hot = append(hot, a)
+		}
+	}
+	if len(hot) > 0 && rapid.Bool().Draw(t, label+"_hot") {
+		return rapid.SampledFrom(hot).Draw(t, label), true
+	}
 	return rapid.SampledFrom(c).Draw(t, label), true
+}
+
+// aHas reports whether an annotation of one of the types can be referred to.
+func aHas(avail []aAvail, types ...string) bool {
+	for _, a := range avail {
+		for _, ty := range types {
+			if a.Type == ty || ty == "*" {
+				return true
+			}
+		}
+	}
+	return false
 }
 
 const aPlain = "abcdefghijklmnopqrstuvwxyz0123456789"
@@ -1048,21 +1072,36 @@ const aPlain = "abcdefghijklmnopqrstuvwxyz0123456789"
 // non-blank string usable as identifier.  required collects the input keys the
 // expression needs in every record.
 func aGenExpr(t *rapid.T, label string, avail []aAvail, forID, gcOK bool, required map[string]string) aExpr {
-	// rapid favours the first elements of a list: the kinds that read annotations come first
-	kinds := []string{"arith", "gt", "ifelse", "copy", "arith2", "subspc", "contains", "maplen", "printf_kv", "seqlen", "gcskew", "id", "printf_len", "printf_id", "int", "str"}
+	all := []string{"arith", "gt", "ifelse", "copy", "arith2", "subspc", "contains", "maplen", "printf_kv", "seqlen", "gcskew", "id", "printf_len", "printf_id", "int", "str"}
 	if forID {
-		kinds = []string{"printf_kv", "copy", "printf_id", "printf_len", "str"}
+		all = []string{"printf_kv", "copy", "printf_id", "printf_len", "str"}
+	}
+	var kinds []string // the kinds whose operands exist
+	for _, k := range all {
+		ok := true
+		switch k {
+		case "arith", "gt", "ifelse", "printf_kv", "arith2":
+			ok = aHas(avail, "sint")
+		case "copy":
+			ok = aHas(avail, map[bool]string{false: "*", true: "idstr"}[forID])
+		case "subspc":
+			ok = aHas(avail, "text", "idstr")
+		case "contains", "maplen":
+			ok = aHas(avail, "mapint", "mapstr")
+		case "gcskew":
+			ok = gcOK
+		}
+		if ok {
+			kinds = append(kinds, k)
+		}
 	}
 	need := func(a aAvail) {
 		if a.Orig != "" {
 			required[a.Orig] = a.Type
 		}
 	}
-	for try := 0; ; try++ {
+	for {
 		e := aExpr{Kind: rapid.SampledFrom(kinds).Draw(t, label+"_kind")}
-		if try > 6 { // nothing suitable to refer to: a constant always works
-			e.Kind = "str"
-		}
 		e.Bracket = rapid.IntRange(0, 3).Draw(t, label+"_br") == 0
 		switch e.Kind {
 		case "int":
@@ -1218,7 +1257,7 @@ func aGenCase(t *rapid.T, fams []string) aCase {
 
 	avail := []aAvail{}
 	for _, p := range aPool {
-		avail = append(avail, aAvail{p.Key, p.Key, p.Type})
+		avail = append(avail, aAvail{Name: p.Key, Orig: p.Key, Type: p.Type})
 	}
 	remove := func(name string) {
 		kept := avail[:0]
@@ -1246,6 +1285,15 @@ func aGenCase(t *rapid.T, fams []string) aCase {
 	if has["rename"] {
 		fresh = aDistinct(t, "rename_new", aFreshKeys, 1, aRepeat(t, "rename_n", 3))
 		olds = aDistinct(t, "rename_old", subject, len(fresh), len(fresh))
+		if rapid.Bool().Draw(t, "rename_old_typed") { // a key the expressions can read under its new name
+			k := rapid.SampledFrom([]string{"count", "ali_length", "seq_length", "sample", "note", "merged_sample"}).Draw(t, "rename_old_first")
+			for i := range olds {
+				if olds[i] == k {
+					olds[i] = olds[0]
+				}
+			}
+			olds[0] = k
+		}
 	}
 	talk := append(append(append([]string(nil), olds...), fresh...), subject...)
 	if has["delete"] {
@@ -1271,9 +1319,8 @@ func aGenCase(t *rapid.T, fams []string) aCase {
 			o.Rename = append(o.Rename, [2]string{nw, olds[i]})
 			for j, a := range avail {
 				if a.Name == olds[i] {
-					// renamed annotations come first: expressions like to read them
 					avail[j].Name = nw
-					avail[0], avail[j] = avail[j], avail[0]
+					avail[j].Hot = true
 				}
 			}
 		}
@@ -1281,7 +1328,7 @@ func aGenCase(t *rapid.T, fams []string) aCase {
 	if has["length"] {
 		o.Length = true
 		remove("seq_length")
-		avail = append(avail, aAvail{"seq_length", "", "sint"})
+		avail = append(avail, aAvail{Name: "seq_length", Type: "sint", Hot: true})
 	}
 	if has["set"] {
 		ns := aRepeat(t, "set_n", 4)
@@ -1301,6 +1348,14 @@ func aGenCase(t *rapid.T, fams []string) aCase {
 			}
 		}
 		keys := aDistinct(t, "set_key", cands, ns, ns)
+		if o.Length && !refs["seq_length"] && rapid.IntRange(0, 3).Draw(t, "set_over_length") == 0 {
+			for i := range keys { // -S on the key --length has just set
+				if keys[i] == "seq_length" {
+					keys[i] = keys[0]
+				}
+			}
+			keys[0] = "seq_length"
+		}
 		for i, k := range keys {
 			o.Set = append(o.Set, aSet{Key: k, Expr: exprs[i]})
 		}
